@@ -592,19 +592,22 @@ def _ident_job(arg):
 
 
 def _chain_job(arg):
-    fam, ia, ib, seed = arg
+    fam, prefix, ib, seed = arg
     specs = catalogue()
-    A, B = specs[ia], specs[ib]
+    prefix = [prefix] if isinstance(prefix, int) else list(prefix)
+    B = specs[ib]
     res = WorkerResult(section="chains")
-    case = {"family": fam, "first": A.name, "then": B.name}
+    case = {"family": fam, "first": [specs[i].name for i in prefix], "then": B.name}
     ref, _ = run_spec(B, "fresh", WorkerResult())
     scratch = WorkerResult()
-    _, args = run_spec(A, "fresh", scratch)
-    # B on the very same argument objects A has just seen
+    args = None
+    for ia in prefix:
+        _, args = run_spec(specs[ia], "fresh", scratch, args=args)
+    # B on the very same argument objects the earlier calls have just seen
     obs, _ = run_spec(B, "fresh", res, args=args)
     if obs is not None and ref is not None and not same_obs(obs, ref):
         res.violation(f"chain:{fam}:{B.name}:result-depends-on-earlier-call",
-                      f"{B.name} after {A.name} on the same argument objects differs from {B.name} on fresh arguments", case)
+                      f"{B.name} after {case['first']} on the same argument objects differs from {B.name} on fresh arguments", case)
     return res.as_dict()
 
 
@@ -668,6 +671,10 @@ def run(ctx):
         if s.family and "b=None" not in s.family and not s.callbacks and (not s.slow or ctx.thorough):
             fams.setdefault(s.family, []).append(i)
     chains = [(f, a, b, ctx.seed) for f, members in fams.items() for a, b in itertools.permutations(members, 2)]
+    if ctx.thorough:
+        # programs of three calls (two earlier calls, then the observed one) inside each family
+        chains += [(f, (a, b), c, ctx.seed) for f, members in fams.items() for a, b, c in itertools.product(members, repeat=3)
+                   if len({a, b, c}) >= 2]
     for res in lattice.pmap(_chain_job, chains, ctx.workers, chunksize=8):
         ctx.merge(res)
     total, with_data, missing = coverage(specs)
@@ -680,7 +687,8 @@ def replay(ctx, case):
     specs = catalogue()
     names = [s.name for s in specs]
     if "family" in case:
-        ctx.merge(_chain_job((case["family"], names.index(case["first"]), names.index(case["then"]), ctx.seed)))
+        first = case["first"] if isinstance(case["first"], list) else [case["first"]]
+        ctx.merge(_chain_job((case["family"], tuple(names.index(n) for n in first), names.index(case["then"]), ctx.seed)))
     elif case.get("pattern") == "cb-ident-vs-copy":
         ctx.merge(_ident_job((names.index(case["call"]), ctx.seed)))
     else:
